@@ -203,6 +203,10 @@ def identities(kind, obj, par, seg, quick):
     return bad
 
 
+def replay_any(rec, ctx):
+    return replay_tiling(rec, ctx) if rec.get("tiling") else replay(rec, ctx)
+
+
 def replay(rec, ctx):
     kind = (ctx or rec)["kind"]
     quick = (ctx or {}).get("quick", True)
@@ -242,6 +246,58 @@ def replay(rec, ctx):
             bad(f"differs-from-fresh.{k}", f"after history {str(a[k])[:150]} ; fresh {str(b[k])[:150]}")
     for what, detail in identities(kind, obj, rec["par"], rec["segments"], quick):
         bad(what, detail)
+    return viol
+
+
+TILING_CFG = """SPECIFICATION Spec
+CONSTANTS
+  LMax = {lmax}
+  RMax = {rmax}
+INVARIANT Tiles
+INVARIANT EmitCase
+"""
+PROFILES = ["uniform", "cbg", "trivariate", "gaussbeam"]
+
+
+def replay_tiling(rec, ctx):
+    """One (length, radius) pair of LaserTiling.tla on every profile class: through the constructor, through the setters in
+    both orders, and as the children of a Laser node the profile is attached to."""
+    from cherab.core.model.laser import UniformEnergyDensity, ConstantBivariateGaussian, TrivariateGaussian, GaussianBeamAxisymmetric
+    L = rec["L"][0] / rec["L"][1]
+    r = rec["r"][0] / rec["r"][1]
+    adm = set(rec["admissible"])
+    viol = []
+    for kind, cls in zip(PROFILES, (UniformEnergyDensity, ConstantBivariateGaussian, TrivariateGaussian, GaussianBeamAxisymmetric)):
+        routes = {}
+        routes["constructor"] = lambda: cls(laser_length=L, laser_radius=r)
+
+        def by_setters(order):
+            o = cls()
+            la = attach(o)
+            for p in order:
+                setattr(o, p, L if p == "laser_length" else r)
+            return o, la
+        for route in ("constructor", "set-length-then-radius", "set-radius-then-length"):
+            try:
+                if route == "constructor":
+                    o = cls(laser_length=L, laser_radius=r)
+                    la = attach(o)
+                else:
+                    o, la = by_setters(("laser_length", "laser_radius") if route.startswith("set-length") else ("laser_radius", "laser_length"))
+                lists = {"generate_geometry": _geom(o.generate_geometry()), "laser-node-children": sorted(_geom(list(la.children)), key=lambda g: g[2])}
+            except Exception as ex:       # noqa: BLE001
+                viol.append({"sig": f"{kind}:tiling:{route}:raised-{type(ex).__name__}", "detail": f"L={L} r={r}: {ex!r}"[:200]})
+                continue
+            for name, got in lists.items():
+                n = len(got)
+                want = [[r, L / n, (i * L) / n] for i in range(n)] if n else []
+                if n not in adm or not all(core.close(g, w, rtol=1e-12, atol=1e-15) for g, w in zip(got, want)):
+                    viol.append({"sig": f"{kind}:segments-do-not-tile-the-laser-length",
+                                 "detail": f"L={L} r={r} via {route} ({name}): {n} pieces (admissible {sorted(adm)}); last piece {got[-1] if got else None}, wanted {want[-1] if want else None}"})
+                    break
+            else:
+                continue
+            break
     return viol
 
 
@@ -294,6 +350,20 @@ def run(v):
                 v.violation(x["sig"], x["detail"], dict(r, kind=kind))
         v.add_cases(len(edges), keys=[kind + json.dumps(r["h"]) for r in edges])
         v.sample({"kind": kind, "history": edges[len(edges) // 2]["h"], "segments": edges[len(edges) // 2]["segments"]})
+    # dense (length, radius) table: the segments tile the laser length exactly once
+    lmax, rmax = (40, 16) if v.tier == "quick" else (80, 40)
+    res = core.run_tlc("LaserTiling", TILING_CFG.format(lmax=lmax, rmax=rmax), workers=1, seed=v.seed, tag="C18-tiling", timeout=3000)
+    core.tlc_must_pass(res, "LaserTiling")
+    v.add_tlc(res, "LaserTiling")
+    cases = [r for r in res.records if r.get("tiling")]
+    if len(cases) != lmax * rmax or not any(len(c["admissible"]) == 1 for c in cases) or max(c["nmax"] for c in cases) < 100:
+        raise core.MachineryError("vacuity: LaserTiling table incomplete")
+    out = core.fan_out("mbt.c18", "replay_tiling", cases, {})
+    for r, vs in zip(cases, out):
+        for x in vs:
+            v.violation(x["sig"], x["detail"], dict(r))
+    v.add_cases(len(cases), keys=["tiling" + json.dumps([r["L"], r["r"]]) for r in cases])
+    v.sample({"tiling_case": cases[len(cases) // 2]})
     v.assumptions += ["cross-section / volume integrals by tensor trapezoid quadrature on +-8 sigma (+-6.5 sigma in 3-D), tolerance 1e-8 / 1e-7",
                       "speed of light CODATA; two concrete values per parameter (mbt/c18.py)"]
     return v.finish(rule="one case = one TLC-explored setter/read history replayed on the real profile (attached to a Laser node) or spectrum, compared with a freshly "
